@@ -114,13 +114,30 @@ func runH264RT(c *Case, disable, avc bool, calls []h264Call) {
 	dep := &codecs.H264Packet{IsAVC: avc}
 	var o Toks
 	o.Ok().Nat(len(calls))
+	// Half of the cases hand every payload to the depacketizer in ONE receive buffer that is reused
+	// for the next packet (a window of a larger array, as a network read loop does); the other half
+	// give each payload its own exactly-sized slice.  Losslessness must not depend on that.
+	var rx []byte
+	if c.R.Bool() {
+		rx = make([]byte, 0, 1<<17)
+		c.Tag("rx=one-reused-buffer")
+	}
 	if try(func() {
 		for _, cl := range calls {
 			frags := pay.Payload(uint16(cl.mtu), cl.buffer())
 			o.Nat(len(frags))
 			for _, f := range frags {
 				head := dep.IsPartitionHead(f)
-				out, err := dep.Unmarshal(append([]byte{}, f...))
+				var in []byte
+				if rx != nil && len(f) < cap(rx)/2 {
+					for i := range rx[:cap(rx)][:len(f)+64] {
+						rx[:cap(rx)][i] = 0xEE // what the previous datagram left behind
+					}
+					in = append(rx[:0], f...)
+				} else {
+					in = append([]byte{}, f...)
+				}
+				out, err := dep.Unmarshal(in)
 				o.Bytes(f).Bool(head)
 				writeH264Res(&o, out, err)
 			}
